@@ -3264,13 +3264,16 @@ Module TraceExample.
       realises ectx false (inv_slots (ex_chart ["ib"]) (i_config (m_i s')) (Some go)) r2 RDone.
   Proof.
     intros s s'.
-    assert (E : execute_once ectx unit ex_exec ex_eval ex_emit (ex_chart ["ib"]) 10 1 s
-                = (s', inl (Some (1%Z, [step_ab])))).
-    { unfold s, s'. fold (run2 ["ib"] false). destruct ex_run2 as [_ H]. rewrite <- H.
-      apply surjective_pairing. }
-    apply C08_execute_once_points in E.
-    destruct E as (_ & _ & new & gs & r1 & r2 & Ht & Ec & Hg & R1 & R2 & _).
-    exists new, gs, r1, r2. auto.
+    pose proof (C08_execute_once_points ectx unit ex_exec ex_eval ex_emit (ex_chart ["ib"]) 10 1
+                  s s' 1%Z [step_ab]) as T.
+    assert (E : snd (run2 ["ib"] false) = inl (Some (1%Z, [step_ab]))) by exact (proj2 ex_run2).
+    change (execute_once ectx unit ex_exec ex_eval ex_emit (ex_chart ["ib"]) 10 1 s)
+      with (run2 ["ib"] false) in T.
+    rewrite <- E in T. specialize (T (surjective_pairing _)).
+    assert (Hig : ig ectx unit s = false) by (vm_compute; reflexivity).
+    rewrite Hig in T. change (macro_event [step_ab]) with (Some go) in T.
+    destruct T as (_ & _ & new & gs & r1 & r2 & Ht & Ec & Hg & R1 & R2 & _).
+    exists new, gs, r1, r2. repeat split; assumption.
   Qed.
 
   Lemma ex_emit_clean : emit_clean unit ex_emit.
